@@ -56,7 +56,9 @@ var (
 	haproxyReqCaptureFormAll    = "http://localhost:" + haproxyManagePort + "/capture_req_all"
 )
 
-var regexToFindPathParameters = regexp.MustCompile(`/\{[a-zA-Z0-9-_]+\}`)
+// matches a path parameter in a URL whose literal characters were already escaped by
+// regexp.QuoteMeta (the braces are escaped as well)
+var regexToFindPathParameters = regexp.MustCompile(`/\\\{[a-zA-Z0-9-_]+\\\}`)
 
 type HAProxyEndpointData struct {
 	Endpoint     string
@@ -138,19 +140,23 @@ func HaproxyEndpointFormat(
 	requirements *stream_types.ProcessorRequirement,
 ) *HAProxyEndpointData {
 	log.Trace().Msgf("Original URL: %v", url)
-	url = strings.ReplaceAll(url, ".", `\.`)
-	formattedURL := url
 	wildcardLiteral := "/*"
 	var hasWildcard bool
-	if strings.HasSuffix(formattedURL, wildcardLiteral) {
+	if strings.HasSuffix(url, wildcardLiteral) {
 		hasWildcard = true
-		formattedURL = strings.TrimSuffix(formattedURL, wildcardLiteral)
-		formattedURL += RegexToReplaceWildcard
+		url = strings.TrimSuffix(url, wildcardLiteral)
 	}
+	// the engine ignores a trailing slash of a configured URL
+	url = strings.TrimRight(url, "/")
+	// every literal character of the configured URL must be matched literally
+	formattedURL := regexp.QuoteMeta(url)
 	formattedURL = regexToFindPathParameters.ReplaceAllString(
 		formattedURL,
 		RegexToReplacePathParameters,
 	)
+	if hasWildcard {
+		formattedURL += RegexToReplaceWildcard
+	}
 	log.Trace().Msgf("Formatted URL: %v", formattedURL)
 	result := strings.Join([]string{method, formattedURL}, delimiter)
 	if !hasWildcard {
